@@ -638,8 +638,11 @@ static int fix_names (
 
 		n = strlen (old_name);
 		strcpy (buf, old_name);
-		if (!EGLPNUM_TYPENAME_ILLis_lp_name_char (buf[0], 1))
+		if (!EGLPNUM_TYPENAME_ILLis_lp_name_char (buf[0], 1) ||
+				!strcasecmp (buf, "inf") || !strcasecmp (buf, "infinity"))
 		{
+			/* also the two words the reader takes for the value infinity when
+			 * they start a bound definition */
 			sprintf (buf, "%d", i);
 		}
 		else
